@@ -92,7 +92,9 @@ def unlink_at_zero(ctx):
         ok = bool(inner) and unparse(inner[0].test) in ("name not in registry[rtype]", "name in registry[rtype]")
         neg = ok and unparse(inner[0].test).startswith("name not in")
         first, second = (inner[0].body, inner[0].orelse) if neg else (inner[0].orelse, inner[0].body) if ok else ([], [])
-        ctx.check(ok and len(first) == 1 and unparse(first[0]) == "registry[rtype][name] = 1" and len(second) == 1 and unparse(second[0]) == "registry[rtype][name] += 1", rg,
+        def touch(stmts):
+            return [unparse(s_) for s_ in stmts if "registry" in unparse(s_)]
+        ctx.check(ok and touch(first) == ["registry[rtype][name] = 1"] and touch(second) == ["registry[rtype][name] += 1"], rg,
                   "REGISTER: first registration sets the count to 1, later ones add 1", "REGISTER does not set 1 / increment by 1")
         ctx.check(not _cleanup_calls(rg.body), rg, "REGISTER never cleans")
     ur = br.get("UNREGISTER")
@@ -151,7 +153,9 @@ def survives(ctx):
     ctx.check(not real, h, "the handler neither re-raises nor leaves the loop", "the per-request handler contains %s: one bad request ends the tracker" % [type(n).__name__ for n in real])
     # everything but readline / the EOF test is inside the try
     outside = [s for s in lp.body if s is not tr]
-    ok = all((isinstance(s, ast.Assign) and any(call_attr(c) == "readline" for c in calls_in(s))) or (isinstance(s, ast.If) and any(isinstance(b, ast.Break) for b in s.body)) for s in outside)
+    def harmless(s_):
+        return not any(True for _ in calls_in(s_)) and "registry" not in unparse(s_, 400) and "_CLEANUP_FUNCS" not in unparse(s_, 400)
+    ok = all((isinstance(s, ast.Assign) and any(call_attr(c) == "readline" for c in calls_in(s))) or (isinstance(s, ast.If) and any(isinstance(b, ast.Break) for b in s.body) and not _cleanup_calls(s.body)) or harmless(s) for s in outside)
     ctx.check(ok, lp, "only reading the line and the EOF test are outside the try", "request processing outside the protecting try: %s" % [unparse(s, 50) for s in outside])
     cl = _cleanup_calls(lp)
     for c in cl:
@@ -182,7 +186,8 @@ def eof_only(ctx):
         conds = [x for x in conds if x[0] not in ("line == b''", "not line", "len(line) == 0")]
         ctx.check(conds == [("cmd == 'PROBE'", True)], c, "PROBE requests are skipped", "`continue` under %s skips requests" % conds)
     rl = [a for a in lp.body if isinstance(a, ast.Assign) and any(call_attr(c) == "readline" for c in calls_in(a))]
-    ctx.check(len(rl) == 1 and lp.body.index(rl[0]) == 0, rl[0] if rl else lp, "one request line is read per iteration, first thing")
+    trs = [s_ for s_ in lp.body if isinstance(s_, ast.Try)]
+    ctx.check(len(rl) == 1 and trs and lp.body.index(rl[0]) < lp.body.index(trs[0]), rl[0] if rl else lp, "one request line is read per iteration, before it is processed")
 
 
 def final(ctx):
